@@ -1,6 +1,7 @@
 package main
 
 // Component `loadcfg` (C10 start-up part).
+// (nsk=<1|2|3> with via=bin: a mapping with a non-string key somewhere in the file)
 // case : unk=<0|1> ups=<tag:hasaddr,…|-> dss=<tag,…|-> rules=<domain/forward/reject;…|-> via=<run|bin> [docs=2]   ("_" = empty string)
 // out  : ok | rejected
 // via=run : the real router.run through the VerifRun hook (fast).
@@ -17,6 +18,7 @@ import (
 	"path/filepath"
 	"reflect"
 	"strings"
+	"sync/atomic"
 	"time"
 
 	"github.com/IrineSistiana/mosproxy/app/router"
@@ -107,6 +109,14 @@ func runLoadCfg(cs string) string {
 		if m["unk"] == "1" && len(rules) == 0 {
 			y.WriteString("no_such_section:\n  x: 1\n")
 		}
+		switch m["nsk"] { // a mapping with a key that is not a string: a decode error, not a panic (D63)
+		case "1":
+			y.WriteString("cache:\n  1: 2\n")
+		case "2":
+			y.WriteString("log:\n  true: 1\n")
+		case "3":
+			y.WriteString("servers:\n  - tag: \"s\"\n    protocol: \"udp\"\n    listen: \"127.0.0.1:0\"\n    ~: 1\n")
+		}
 		if m["docs"] == "2" { // a second YAML document: valid settings, or an unknown key, after a "---" line
 			if len(rules)%2 == 0 {
 				y.WriteString("---\nrules:\n  - reject: 3\n")
@@ -124,10 +134,14 @@ func runLoadCfg(cs string) string {
 			return "exec-error"
 		}
 		up := make(chan bool, 2)
+		var panicked atomic.Bool
 		scan := func(sc *bufio.Scanner) {
 			for sc.Scan() {
 				if strings.Contains(sc.Text(), "router is up and running") {
 					up <- true
+				}
+				if strings.HasPrefix(sc.Text(), "panic:") || strings.HasPrefix(sc.Text(), "goroutine ") {
+					panicked.Store(true) // the process died with a Go panic instead of reporting an error
 				}
 			}
 		}
@@ -141,6 +155,10 @@ func runLoadCfg(cs string) string {
 			<-done
 			return "ok"
 		case err := <-done:
+			time.Sleep(20 * time.Millisecond) // let the scanners see the rest of the output
+			if panicked.Load() {
+				return "panic"
+			}
 			if err != nil {
 				return "rejected"
 			}
@@ -225,6 +243,9 @@ func genLoadCfg(r *rand.Rand, thorough bool, emit func(c, cat string)) {
 	}
 	for i := 0; i < 2+nbin/6; i++ {
 		emit(mk("bin", 0)+" docs=2", "bin-twodocs")
+	}
+	for i := 1; i <= 3; i++ {
+		emit(mk("bin", 0)+fmt.Sprintf(" nsk=%d", i), "bin-nonstring-key")
 	}
 }
 
